@@ -272,3 +272,72 @@ def branch_arms(func, cond_pred):
         t, f = (side_succ, other) if hit[1] else (other, side_succ)
         out.append((bid, t, f, ipdom(func, bid)))
     return out
+
+
+# ----------------------------------------------------------------------------- three-valued guard evaluation
+
+def tv(t, leaf, depth=0):
+    """Three-valued evaluation of a condition / integer expression tree: leaf(node) may return ('v', value) for the nodes
+    the caller gives a value to (a field, a call, a variable); constants evaluate to themselves; everything else is
+    unknown (None).  `&&` / `||` are decided by one known operand where possible."""
+    while isinstance(t, dict) and t.get('k') in ('cast', 'paren') and 'cv' not in t:
+        t = t.get('e')
+    if not isinstance(t, dict) or depth > 24:
+        return None
+    lv = leaf(t)
+    if lv is not None:
+        return lv[1]
+    if 'cv' in t:
+        return t['cv']
+    k = t.get('k')
+    if k in ('cast', 'paren'):
+        return tv(t.get('e'), leaf, depth + 1)
+    if k == 'ctor' and len(t.get('args', [])) == 1:
+        return tv(t['args'][0], leaf, depth + 1)
+    if k == 'un':
+        v = tv(t.get('e'), leaf, depth + 1)
+        if v is None:
+            return None
+        return {'!': lambda: not v, '-': lambda: -v, '+': lambda: v, '~': lambda: ~v}.get(t.get('op'), lambda: None)()
+    if k == 'cond':
+        c = tv(t.get('c'), leaf, depth + 1)
+        if c is None:
+            a, b = tv(t.get('a'), leaf, depth + 1), tv(t.get('b'), leaf, depth + 1)
+            return a if a is not None and a == b else None
+        return tv(t.get('a') if c else t.get('b'), leaf, depth + 1)
+    ops = None
+    if k == 'bin':
+        ops = (t.get('l'), t.get('r'))
+    elif k == 'call' and t.get('op') in ('==', '!=', '<', '<=', '>', '>=', '+', '-') and len(([t['recv']] if t.get('recv') is not None else []) + t.get('args', [])) == 2:
+        ops = tuple(([t['recv']] if t.get('recv') is not None else []) + t.get('args', []))
+    elif k == 'call' and not t.get('args') and t.get('recv') is not None and t.get('n', '').split('::')[-1].startswith('operator'):
+        return tv(t['recv'], leaf, depth + 1)          # conversion operators (operator bool, operator T)
+    if ops is None:
+        return None
+    op = t.get('op')
+    a, b = tv(ops[0], leaf, depth + 1), tv(ops[1], leaf, depth + 1)
+    if op == '&&':
+        if (a is not None and not a) or (b is not None and not b):
+            return False
+        return None if a is None or b is None else True
+    if op == '||':
+        if (a is not None and a) or (b is not None and b):
+            return True
+        return None if a is None or b is None else False
+    if a is None or b is None:
+        return None
+    try:
+        return {'==': lambda: a == b, '!=': lambda: a != b, '<': lambda: a < b, '<=': lambda: a <= b, '>': lambda: a > b, '>=': lambda: a >= b,
+                '+': lambda: a + b, '-': lambda: a - b, '*': lambda: a * b, '&': lambda: a & b, '|': lambda: a | b}.get(op, lambda: None)()
+    except Exception:
+        return None
+
+
+def excluded_under(func, b, leaf, blocks=None):
+    """True if, under the partial valuation `leaf`, some dominating condition of block b has the wrong outcome: the block
+    cannot be reached with these values.  Independent of how the test is written (`> 0`, `!= 0`, `>= 1`, early return)."""
+    for c, side in guard_trees(func, blocks if blocks is not None else set(func.blocks), b):
+        v = tv(c, leaf)
+        if v is not None and bool(v) != side:
+            return True
+    return False
